@@ -414,6 +414,50 @@ class Engine(CoreMixin, ExprMixin, StmtMixin, CallMixin, BuiltinMixin):
         elif kind == 'signal':
             ghosts.update(self.spec.notes.get('signal_ghosts', ['signals']))
 
+    def structured_model(self, m):
+        '''The pre-state of a counter-model as plain data: arguments, ghost values, and the
+        objects reachable from them (fields read from the initial heap arrays).'''
+        from . import modelval as MV
+        refs = []
+        args, ghost = {}, {}
+        for name, v in self.model_watch:
+            if name.startswith('self.') or v.z is None:
+                continue
+            try:
+                val = MV.decode(v.t, v.z, m, refs)
+            except Exception as err:  # noqa
+                val = {'undecodable': str(err)[:60]}
+            if name.startswith('ghost.'):
+                ghost[name[6:]] = val
+            else:
+                args[name] = val
+        objects = {}
+        done = set()
+        depth = 0
+        while refs and depth < 200:
+            depth += 1
+            cls, r, t = refs.pop(0)
+            if r is None or (cls, r) in done:
+                continue
+            done.add((cls, r))
+            fields = {}
+            chain = self.spec.schema_chain(cls) if not cls.startswith('pkt:') else [self.spec.schemas.get(cls)]
+            for sc in chain:
+                if sc is None:
+                    continue
+                for fn, ft in sc.fields.items():
+                    if ft is TNone:
+                        continue
+                    ent = self.h0.get((sc.name, fn))
+                    if ent is None:
+                        continue
+                    try:
+                        fields[fn] = MV.decode(ft, z3.Select(ent[0], z3.IntVal(r)), m, refs)
+                    except Exception as err:  # noqa
+                        fields[fn] = {'undecodable': str(err)[:60]}
+            objects.setdefault(cls, {})[str(r)] = fields
+        return {'args': args, 'ghost': ghost, 'objects': objects}
+
     def clause_reads(self, node, _seen=None):
         '''Field and ghost names a specification expression mentions (macros expanded).'''
         out = set()
